@@ -29,6 +29,7 @@ import (
 	"sync/atomic"
 	"testing"
 	"testing/synctest"
+	"time"
 
 	bigbuff "github.com/joeycumines/go-bigbuff"
 	"pgregory.net/rapid"
@@ -525,7 +526,7 @@ func c14Run(t *rapid.T, st *vkit.Stats) {
 	}
 	m.settle()
 
-	w := map[string]int{"call": 7, "release": 4, "wait": 1, "burst": 2, "storm": 2}
+	w := map[string]int{"call": 7, "release": 4, "wait": 1, "burst": 2, "storm": 2, "advance": 1}
 	actions := map[string]func(*rapid.T){}
 	add := func(name string, f func(*rapid.T)) {
 		for i := 0; i < w[name]; i++ {
@@ -537,6 +538,12 @@ func c14Run(t *rapid.T, st *vkit.Stats) {
 	add("wait", m.ruleWait)
 	add("burst", m.ruleBurst)
 	add("storm", m.ruleStorm)
+	add("advance", func(t *rapid.T) { // time passes while nothing else happens: Workers has no notion of time
+		d := rapid.SampledFrom([]time.Duration{time.Millisecond, 3 * time.Second, 24 * time.Hour}).Draw(t, "advance")
+		time.Sleep(d)
+		m.cur = append(m.cur, fmt.Sprintf("advance(%v)", d))
+		m.settle()
+	})
 	t.Repeat(vkit.NoStarve(actions, nil))
 
 	// ---- teardown: open every gate in a drawn order; once the bubble is quiescent everything must be over
